@@ -2,4 +2,5 @@ SPECIFICATION Spec
 CONSTANTS
   Families = {"A", "B", "C1", "C2", "E"}
 PROPERTY DescriptionTrue
+PROPERTY DescriptionStable
 CHECK_DEADLOCK FALSE
